@@ -13,7 +13,7 @@ import vlib
 from vlib import glist
 
 PID = "C06"
-THEOREMS = ["C06_reconcile_correct_bounded", "C06_reconcile_correct_bounded_raw"]
+THEOREMS = ["C06_reconcile_correct", "C06_reconcile_spec", "C06_reconcile_correct_marker"]
 
 
 def arrangements(keys, maxlen):
